@@ -48,6 +48,24 @@ CLAIMS = {
             'Trusted: as C18, plus: counter + 1 cannot overflow; buffer elements are finite (comparator expect); the predicate-counter rule for BinaryEntropy.p. '
             'Level other: the finiteness-assertion clause is only partially decided.',
             'DESIGN.md §5 C15', 'E3'),
+    'C02': ('other', 'static analysis: inductive window-length invariants + mirror/extremum/Welford dataflow rules over the gated-SSA value graph',
+            'Decides the structural clauses of C02 for all inputs, N and histories: exact window (len ≤ N inductive, each step len+1 or exactly N), '
+            'zero-seeded sum aggregates whose eviction contribution mirrors the insertion contribution, extrema rescanned over the post-eviction '
+            'window whenever the evicted value may be the extremum, Welford counter == window length with post-operation divisors, BinaryEntropy '
+            'counting the same predicate on insert and evict, Roc base register. A necessary condition of the property, not the closed formulas.',
+            'Trusted: rustc front end, sfa/vg.py, sfa/solve.py, spec tables. Not decided: that the closed formulas (sum/len, entropy, 2(x-min)/(max-min)-1, ...) are right, and the rounding-noise bound.',
+            'DESIGN.md §5 C02', 'E5/E3'),
+    'C03': ('other', 'static analysis: window invariants + state-cell census (register / mirrored accumulator / rescanned extremum / counted predicate / listed hold) over the value graph',
+            'For the 17 finite-memory views every place where old information could persist is shown to be of a kind that forgets; any other '
+            'self-referential or data-dependently held state cell is reported. Symbolic in inputs and N.',
+            'Trusted: as C02. Not decided: exact cancellation of paired +g/−g (K itself), Alma 2N and PFE N+M−1 are taken from the statement.',
+            'DESIGN.md §5 C03', 'E5/E3'),
+    'C05': ('other', 'static analysis: mirror rule with register unification over the value graph + ratio-guard matching',
+            'Rsi/MyRSI: exact window; gain/loss aggregates are zero-seeded accumulators whose eviction is the σ-image (new↦evicted, '
+            'newest-predecessor↦oldest-predecessor register) of the insertion incl. tie predicate and divisor; predecessor registers advance correctly; '
+            'state never depends on the raw argument; ratio guards (100 when L=0, hold when G+L=0).',
+            'Trusted: as C02. Not decided: 100−100/(1+G/L) ≡ 100G/(G+L), ±1/negation corollaries, rounding residue.',
+            'DESIGN.md §5 C05', 'E5/E3'),
 }
 
 NOT_APPLICABLE = {
